@@ -49,6 +49,16 @@ def obligations(tier, seed=0):
     obs.append(('checks.fam_arith2:shift_frexp', dict(bc=7, fn='mpf_shift')))
     obs.append(('checks.fam_arith2:shift_frexp', dict(bc=7, fn='mpf_frexp')))
     obs.append(('checks.fam_arith2:shift_frexp', dict(bc=1, fn='mpf_frexp')))
+    # every spelling of a special value is stored in its one canonical encoding
+    for src, texts in (('Decimal', ['0', '-0', '0E+7', '-0E-12', '-0.000', '0.0']), ('str', ['0', '-0', '0.0', '-0.0', '0e5', '-0e-5', '00.000', '.0']),
+                       ('float', ['0.0', '-0.0']), ('convert', ['-0', '0E+3', '-0.0'])):
+        for t in texts:
+            obs.append(('checks.fam_cmp:special_encoding', dict(src=src, text=t, kind='zero')))
+    for src, table in (('Decimal', [('Infinity', 'inf'), ('-Infinity', 'ninf'), ('NaN', 'nan'), ('-NaN', 'nan')]),
+                       ('str', [('inf', 'inf'), ('+inf', 'inf'), ('-inf', 'ninf'), ('nan', 'nan')]),
+                       ('float', [('inf', 'inf'), ('-inf', 'ninf'), ('nan', 'nan')]), ('convert', [('Infinity', 'inf'), ('-Infinity', 'ninf'), ('NaN', 'nan')])):
+        for t, k in table:
+            obs.append(('checks.fam_cmp:special_encoding', dict(src=src, text=t, kind=k)))
     try:
         from checks import c01_extra
         obs += c01_extra.obligations(tier, seed)
